@@ -287,6 +287,10 @@ def do_replay(prop: str, path: str) -> int:
         # C16: a step of __aenter__ fails or the task is cancelled k loop iterations after the statement began
         from .props import enterfail
         return enterfail.replay(case)
+    if case.get("overlap") and "schedule" in case:
+        # C09: lines received while a write of a wake-up flush waits, every write under the schedule's control
+        from .props import flushoverlap
+        return flushoverlap.replay(case)
     if "concurrent" in case:
         # C01: concurrent Gateway.send calls over a transport whose write suspends, under a schedule
         from .props import codec_concurrent
